@@ -91,8 +91,11 @@ func outputTupleDir(v rel.Value, dir string, fs afero.Fs, dryRun bool) error {
 		return err
 	}
 	if _, err := fs.Stat(dir); os.IsNotExist(err) {
-		if err := fs.Mkdir(dir, 0755); err != nil {
-			return err
+		// the dry run only validates; it must leave the filesystem untouched
+		if !dryRun {
+			if err := fs.Mkdir(dir, 0755); err != nil {
+				return err
+			}
 		}
 	}
 
@@ -201,7 +204,12 @@ func applyIfExistsConfig(t rel.Tuple, dir string, fs afero.Fs, dryRun bool) (err
 		return errInvalidConfig
 	}
 	switch conf.String() {
-	case ifExistsIgnore, ifExistsRemove, ifExistsReplace, ifExistsFail:
+	case ifExistsIgnore, ifExistsRemove, ifExistsFail:
+	case ifExistsReplace:
+		// checked up front, not only once the entry exists
+		if err := checkDirXorFileField(t); err != nil {
+			return err
+		}
 	case ifExistsMerge:
 		if t.HasName(fileField) {
 			return errors.Errorf("%s: '%s' config must not have '%s' field", ifExistsConfig, fileField, ifExistsMerge)
@@ -228,9 +236,6 @@ func applyIfExistsConfig(t rel.Tuple, dir string, fs afero.Fs, dryRun bool) (err
 		}
 		return fs.RemoveAll(dir)
 	case ifExistsReplace:
-		if err := checkDirXorFileField(t); err != nil {
-			return err
-		}
 		if dryRun {
 			return nil
 		}
